@@ -72,6 +72,27 @@ fn lattice_i128(min: i128, max: i128) -> Vec<i128> {
         v.extend([p, p - 1, p + 1, -p, -p - 1, -p + 1]);
         p *= 10;
     }
+    // decimal shapes: d*10^k, repdigits, ascending digit runs, 25*10^k / 5*10^k, every small value
+    let mut p = 1i128;
+    for len in 1..=20u32 {
+        for d in 1..=9i128 {
+            v.extend([d * p, -(d * p)]);
+            let mut rep = 0i128;
+            for _ in 0..len {
+                rep = rep * 10 + d;
+            }
+            v.extend([rep, -rep]);
+        }
+        let mut asc = 0i128;
+        for i in 0..len {
+            asc = asc * 10 + ((i as i128 + 1) % 10);
+        }
+        v.extend([asc, -asc, 25 * p, -25 * p, 5 * p + 5, 10 * p - 10, 10 * p + 10]);
+        p *= 10;
+    }
+    for x in -20_000i128..=70_000 {
+        v.push(x);
+    }
     v.retain(|x| *x >= min && *x <= max);
     v.sort();
     v.dedup();
@@ -84,6 +105,20 @@ fn f64_lattice() -> Vec<f64> {
         v.push(2f64.powi(k));
         v.push(-(2f64.powi(k)) * 1.0000000000000002);
     }
+    // decimal shapes: m * 10^k for every exponent and several mantissas
+    for k in -330..=308 {
+        for m in ["1", "-1", "9.999999999999999", "1.5", "-2.5", "1.2345678901234567", "4.000000000000001"] {
+            if let Ok(x) = format!("{}e{}", m, k).parse::<f64>() {
+                if x.is_finite() {
+                    v.push(x);
+                }
+            }
+        }
+    }
+    for i in 0..2000 {
+        v.push(i as f64 / 8.0 - 100.0);
+        v.push(i as f64 * 0.01);
+    }
     v
 }
 
@@ -92,6 +127,19 @@ fn f32_lattice() -> Vec<f32> {
     for k in -149..128 {
         v.push(2f32.powi(k));
         v.push(-(2f32.powi(k)) * 1.0000001);
+    }
+    for k in -46..=38 {
+        for m in ["1", "-1", "9.999999", "1.5", "-2.5", "1.2345678"] {
+            if let Ok(x) = format!("{}e{}", m, k).parse::<f32>() {
+                if x.is_finite() {
+                    v.push(x);
+                }
+            }
+        }
+    }
+    for i in 0..2000 {
+        v.push(i as f32 / 8.0 - 100.0);
+        v.push(i as f32 * 0.01);
     }
     v
 }
@@ -293,6 +341,8 @@ fn parse_time(t: &[u8]) -> Option<(u64, u32, u32, u32)> {
 }
 
 const US: [u32; 4] = [0, 1, 500_000, 999_999];
+/// microsecond values of every decimal shape (leading zeros, trailing zeros, all digits)
+pub const USX: [u32; 22] = [0, 1, 9, 10, 99, 100, 101, 999, 1000, 9999, 10_000, 99_999, 100_000, 100_001, 123_456, 500_000, 654_321, 900_000, 909_090, 999_000, 999_990, 999_999];
 
 /// all calendar dates of years 0..=9999 (chunked by year), all times of day, all durations
 struct Temporal {
@@ -304,11 +354,32 @@ impl Family for Temporal {
         "dates-times-durations".into()
     }
     fn len(&self) -> u64 {
-        10000 + 24 + 839
+        10000 + 24 + 839 + 1
     }
     fn run(&self, idx: u64, st: &mut Stats) -> Result<(), Violation> {
         st.nontrivial += 1;
         let mut n = 0u64;
+        if idx == 10000 + 24 + 839 {
+            // microsecond values of every decimal shape, at a few times of day and durations
+            let base = NaiveDate::from_ymd_opt(2024, 2, 29).unwrap();
+            for us in USX {
+                for (h, m, s) in [(0u32, 0u32, 0u32), (0, 0, 1), (12, 34, 56), (23, 59, 59), (9, 5, 7)] {
+                    let dt = base.and_hms_micro_opt(h, m, s, us).unwrap();
+                    expect_text(&dt, &format!("NaiveDateTime {}", dt), move |t| t.len() >= 19 && parse_date(&t[..10]) == Some((2024, 2, 29)) && t[10] == b' ' && parse_time(&t[11..]) == Some((h as u64, m, s, us)))?;
+                    n += 1;
+                }
+                for hours in [0u64, 1, 23, 24, 25, 47, 48, 100, 240, 815, 816, 838] {
+                    for (m, s) in [(0u64, 0u64), (59, 59), (7, 3)] {
+                        let d = Duration::new(hours * 3600 + m * 60 + s, us * 1000);
+                        expect_text(&d, &format!("Duration {}:{:02}:{:02}.{:06}", hours, m, s, us), move |t| parse_time(t) == Some((hours, m as u32, s as u32, us)))?;
+                        n += 1;
+                    }
+                }
+            }
+            st.add("microsecond_shapes", n);
+            st.evals += n.saturating_sub(1);
+            return Ok(());
+        }
         if idx < 10000 {
             // every day of year `idx`
             let y = idx as i32;
@@ -367,7 +438,9 @@ impl Family for Temporal {
         Ok(())
     }
     fn describe(&self, idx: u64) -> J {
-        if idx < 10000 {
+        if idx == 10000 + 24 + 839 {
+            json!({"microseconds": USX, "at": "5 times of day and 36 durations"})
+        } else if idx < 10000 {
             json!({"every_day_of_year": idx})
         } else if idx < 10024 {
             json!({"every_second_of_hour": idx - 10000, "microseconds": US})
@@ -679,7 +752,7 @@ pub fn build(quick: bool) -> Check {
     Check {
         id: "C06",
         level: "model_checking",
-        rule: "values at the public to_mysql_text seam, decoded by refwire and by mysql_common's TextValue: u8/i8/u16/i16 exhaustive (u32/i32/finite f32 exhaustive in thorough); u64/i64/usize/isize/f64/f32 over all 2^k, 2^k+-1, 10^k+-1, bounds, subnormals, non-terminating fractions; every calendar date of years 0..9999, every second of a day x 4 microsecond values, every second of 0..838:59:59 x 4 microsecond values; byte strings of every length 0..300, 65534..65537 (and 2^24-1..2^24+1 in thorough) x 6 leading bytes incl. 0xFB..0xFF; Option, &T, String/str/Vec<u8>, mysql_common::Value variants; NULL vs \"\" vs \"NULL\". Through rows: every arrangement of <= 3 cells over a 15-value mixed palette and rotations for shapes up to 3x4, via write_col and write_row; a refused text value (invalid generic date, negative generic time) at each column followed by a replacement. Non-trivial = beyond what the unit tests sample (1, MAX, one date).".into(),
+        rule: "values at the public to_mysql_text seam, decoded by refwire and by mysql_common's TextValue: u8/i8/u16/i16 exhaustive (u32/i32/finite f32 exhaustive in thorough); u64/i64/usize/isize/f64/f32 over all 2^k, 2^k+-1, 10^k+-1, d*10^k, repdigits and digit runs of every length, every value -20000..70000, m*10^k for every decimal exponent, bounds, subnormals, non-terminating fractions; every calendar date of years 0..9999, every second of a day x 4 microsecond values, every second of 0..838:59:59 x 4 microsecond values, 22 microsecond values of every decimal shape at further times and durations; byte strings of every length 0..300, 65534..65537 (and 2^24-1..2^24+1 in thorough) x 6 leading bytes incl. 0xFB..0xFF; Option, &T, String/str/Vec<u8>, mysql_common::Value variants; NULL vs \"\" vs \"NULL\". Through rows: every arrangement of <= 3 cells over a 15-value mixed palette and rotations for shapes up to 3x4, via write_col and write_row; a refused text value (invalid generic date, negative generic time) at each column followed by a replacement. Non-trivial = beyond what the unit tests sample (1, MAX, one date).".into(),
         assumptions: vec![
             "a conformant client parses numeric text with the same-width standard parser; floats must round-trip bit-exactly".into(),
             "64-bit numeric domains are covered at lattices, not exhaustively".into(),
